@@ -459,7 +459,7 @@ func (*c07) Exhaustive(tier string) []any {
 					if sc == "rollback-recreate" && take {
 						continue
 					}
-					out = append(out, c07BuildSpec(c07Spec{Backend: "secret", Scenario: sc, Idx: []int{j % len(c07Pool), 2}, Place: []string{p, "absent"}, NS: []string{"other", "other"}, Twins: true, Variant: j, Take: take}))
+					out = append(out, c07BuildSpec(c07Spec{Backend: "secret", Scenario: sc, Idx: []int{j % len(c07Pool), (j%len(c07Pool) + 2) % len(c07Pool)}, Place: []string{p, "absent"}, NS: []string{"other", "other"}, Twins: true, Variant: j, Take: take}))
 				}
 			}
 		}
